@@ -23,13 +23,13 @@ package couchbase
 //@ nonblocking
 //@ requires opm != nil && typeis(opm, "*asyncOp") && as(opm, "*asyncOp").signal != nil && chsent(as(opm, "*asyncOp").signal) - chrecvd(as(opm, "*asyncOp").signal) < chcap(as(opm, "*asyncOp").signal) && !chclosed(as(opm, "*asyncOp").signal)
 //@ requires ch != nil && ch != as(opm, "*asyncOp").signal && chsent(ch) - chrecvd(ch) < chcap(ch) && !chclosed(ch)
-//@ requires observer != nil && (err == nil ==> len(failOverLogs) > 0)
-//@ ensures.branch[C06,C08] err == nil ==> calls(couchbase.Observer.SetVbUUID) == 1 && arg(couchbase.Observer.SetVbUUID, 0, recv) == observer && arg(couchbase.Observer.SetVbUUID, 0, vbUUID) == failOverLogs[0].VbUUID
-//@ ensures.catchup[C08] err == nil ==> calls(couchbase.Observer.SetCatchup) == 1 && arg(couchbase.Observer.SetCatchup, 0, recv) == observer && arg(couchbase.Observer.SetCatchup, 0, seqNo) == failedSeqNo
-//@ ensures.nobranch[C08] err != nil ==> calls(couchbase.Observer.SetVbUUID) == 0 && calls(couchbase.Observer.SetCatchup) == 0
+//@ requires observer != nil && (param1 == nil ==> len(param0) > 0)
+//@ ensures.branch[C06,C08] param1 == nil ==> calls(couchbase.Observer.SetVbUUID) == 1 && arg(couchbase.Observer.SetVbUUID, 0, recv) == observer && arg(couchbase.Observer.SetVbUUID, 0, vbUUID) == param0[0].VbUUID
+//@ ensures.catchup[C08] param1 == nil ==> calls(couchbase.Observer.SetCatchup) == 1 && arg(couchbase.Observer.SetCatchup, 0, recv) == observer && arg(couchbase.Observer.SetCatchup, 0, seqNo) == failedSeqNo
+//@ ensures.nobranch[C08] param1 != nil ==> calls(couchbase.Observer.SetVbUUID) == 0 && calls(couchbase.Observer.SetCatchup) == 0
 //@ ensures.resolve[C20] calls(couchbase.AsyncOp.Resolve) == 1 && arg(couchbase.AsyncOp.Resolve, 0, recv) == opm
 //@ ensures.once_ch[C20] sends(ch) == 1
-//@ ensures.outcome[C20] chbuf(ch, old(chsent(ch))) == err
+//@ ensures.outcome[C20] chbuf(ch, old(chsent(ch))) == param1
 //@ modifies chan(ch), chan(as(opm, "*asyncOp").signal), calls(couchbase.AsyncOp.Resolve), calls(couchbase.Observer.SetVbUUID), calls(couchbase.Observer.SetCatchup)
 
 //@ func (*client).openStreamWithRollback
